@@ -331,6 +331,7 @@ func runC09(c *check, replay string) int {
 					return
 				}
 			}
+			violationPrinted = true
 			fmt.Printf("VIOLATION property=%s replay=%s\n    %s\n", c.id, fromReplay, problem)
 			code = 1
 			nviol++
@@ -344,6 +345,7 @@ func runC09(c *check, replay string) int {
 		os.WriteFile(dst, b, 0o644)
 		nviol++
 		if nviol <= 4 {
+			violationPrinted = true
 			fmt.Printf("VIOLATION property=%s replay=%s\n    %s\n    flags %v out=%q\n%s\n", c.id, dst, problem, cs.Flags, cs.OutOpt, indent(cs.Src))
 		}
 		code = 1
